@@ -382,6 +382,13 @@ func (c *Ctx) buildUnitsBase(gs []*gast.Grammar, flagSets [][]string, race bool,
 	for gi, g := range gs {
 		for _, fs := range flagSets {
 			n++
+			if strings.Contains(strings.Join(fs, " "), "@") && len(g.Rules) > 0 {
+				// entrypoint lists are written per grammar: @first / @last stand for its first / last rule
+				fs = append([]string{}, fs...)
+				for k := range fs {
+					fs[k] = strings.NewReplacer("@first", g.Rules[0].Name, "@last", g.Rules[len(g.Rules)-1].Name).Replace(fs[k])
+				}
+			}
 			u := &Unit{G: g, GIdx: gi, Flags: fs, FlagID: strings.Join(fs, " "), Pkg: fmt.Sprintf("p%05d", n)}
 			if isLR != nil {
 				u.IsLR = isLR(gi)
@@ -589,12 +596,14 @@ func (bt *Built) Vet() map[string][]string {
 }
 
 // InitInput is the input the in-package harness parses while the package is being initialised: a
-// sentence of the grammar drawn from a generator seeded by the grammar text.
+// sentence of the grammar drawn from a generator seeded by the grammar.
 func (u *Unit) InitInput() []byte {
 	if u.G == nil || len(u.G.Rules) == 0 {
 		return []byte("a")
 	}
 	h := fnv.New64a()
-	h.Write([]byte(u.Text))
+	// seeded by the grammar itself, not by the unit's text: the text names the unit's package, and the
+	// flag variants of one grammar (compared with each other in C15) must parse the same sentence
+	h.Write([]byte(gast.Short(u.G)))
 	return u.G.Sentence(rand.New(rand.NewSource(int64(h.Sum64()>>1))), u.G.Rules[0].Name, u.G.Alphabet(), 6)
 }
